@@ -1,6 +1,6 @@
 """C12 - no accepted statement ever yields a malformed or silently truncated instruction."""
 import random
-from harness import tlc, asmgen, asmcheck, asmio
+from harness import tlc, asmgen, asmcheck, asmio, proggen
 from harness.asmcheck import Case, framed
 from harness.props import c01
 
@@ -48,6 +48,16 @@ def run(ctx):
         t, rk = asmgen.random_variant(rnd, rnd.choice(good))
         cases.append(framed(t, "random-values", **rk))
     asmcheck.run_suite(ctx, "random-values", cases)
+    # (a'') two-term constant expressions whose result leaves the operand's range (or just stays inside it)
+    from harness.asmio import ex, num
+    cases = []
+    pairs = [(0, "-", 40000), (0, "-", 65400), (1000, "-", 40000), (40000, "+", 40000), (300, "*", 300), (255, "+", 1), (250, "+", 5), (0, "-", 128), (0, "-", 129),
+             (0, "-", 32768), (0, "-", 32769), (65535, "+", 1), (65535, "*", 2), (128, "*", 2), (127, "+", 1), (0, "-", 65535), (16, "*", 4096), (1, "-", 65535)]
+    shapes = [s for s in good if asmgen.uses_value(s) and s["mn"] in ("LDA", "LDX", "STA", "JMP", "LEAX", "CMPY", "ANDCC", "LDD", "INC")]
+    for s in shapes[::max(1, len(shapes) // (4000 if thorough else 400))]:
+        for a, op, b in pairs:
+            cases.append(framed(asmgen.with_expr(s, ex(num(a, rnd.choice(["dec", "hex"])), op, num(b, rnd.choice(["dec", "hex4"])))), "expr-range"))
+    asmcheck.run_suite(ctx, "expression-results-out-of-range", cases)
     # (b) code -> spec: single-edit mutations of valid operand strings (no abstract form: decode clauses only)
     n = 400000 if thorough else 30000
     cases = []
@@ -63,6 +73,16 @@ def run(ctx):
         txt = "".join(rnd.choice(ALPHABET) for _ in range(rnd.choice([1, 2, 2, 3, 3, 4, 5, 6, 8])))
         cases.append(raw_case(rnd.choice(mns), txt, "random-string"))
     asmcheck.run_suite(ctx, "random-strings", cases)
+    # accepted free text: single-line mutations of valid programs (data directives included), judged with "raw" statements
+    from harness.props import c13
+    corpus = [c13.README] + [Case(proggen.gen_program(rnd, 3, 14, faults=False)[0]).lines for _ in range(300)]
+    muts = []
+    for _ in range(150000 if thorough else 12000):
+        lines = list(rnd.choice(corpus))
+        k = rnd.randrange(len(lines))
+        lines[k] = c13.mutate_line(rnd, lines[k])
+        muts.append(lines)
+    asmcheck.run_text_suite(ctx, "mutated-programs-accepted-text", muts)
     ctx.cov["rule"] = ("(a) TLC-enumerated statements that the mode table / operand widths forbid (must be rejected), (a') random values in valid shapes, "
                        "(b) single-edit mutations of valid operand strings, (c) random operand strings; whatever is accepted must decode (M6809!Decode) as exactly "
                        "one instruction of that mnemonic consuming all bytes, with byte count = reserved space. distinct_nontrivial = spec classes of the statement under test")
